@@ -1013,6 +1013,11 @@ impl<'a, E: Engine> Replayer<'a, E> {
         // model verdict <<reads equal, state equal>> at ob.<name>[i][j]..., if the model printed it
         let mv = |v: &Value, idx: usize| -> Option<Value> { v.as_array().and_then(|a| a.get(idx)).cloned() };
 
+        // a duplicate / stale state that disturbs a replica holding a pending remove (or reached by an overtaking
+        // delivery) also contradicts C08 ("the pending remove ... travels inside merged states")
+        let c08 = sys.feats.pending || sys.feats.noncausal;
+        let p_reads: Vec<&str> = if c08 { vec!["C09", "C08"] } else { vec!["C09"] };
+        let p_state: Vec<&str> = if c08 { vec!["C09", "C20", "C08"] } else { vec!["C09", "C20"] };
         let misuse = self.opts.misuse || self.opts.vm_only;
         let vm_only = self.opts.vm_only;
         // C09: re-applying any known op changes nothing (reads, ==)
@@ -1030,9 +1035,9 @@ impl<'a, E: Engine> Replayer<'a, E> {
                 Ok(c) => {
                     let m = mv(&ob["dup"], *i - 1);
                     let r2 = E::reads(&c, &d);
-                    self.judge(&["C09"], "dup.reads", json!(r2 == base_reads), json!(true), m.as_ref().and_then(|x| mv(x, 0)), h, pend_now, json!({"op": i}));
+                    self.judge(&p_reads, "dup.reads", json!(r2 == base_reads), json!(true), m.as_ref().and_then(|x| mv(x, 0)), h, pend_now, json!({"op": i}));
                     let p2 = E::proj(&c, &d);
-                    self.judge(&["C09", "C20"], "dup.state", json!(p2 == base_proj), json!(true), m.as_ref().and_then(|x| mv(x, 1)), h, pend_now, json!({"op": i}));
+                    self.judge(&p_state, "dup.state", json!(p2 == base_proj), json!(true), m.as_ref().and_then(|x| mv(x, 1)), h, pend_now, json!({"op": i}));
                 }
                 Err(e) => self.judge(&["C09"], "dup.panic", json!(e), json!(true), None, h, pend_now, json!({"op": i})),
             }
@@ -1097,9 +1102,9 @@ impl<'a, E: Engine> Replayer<'a, E> {
                     Ok(c) => {
                         let m = if name.starts_with('r') { mv(&ob["stale"], name[1..].parse::<usize>().unwrap() - 1) } else { None };
                         let r2 = E::reads(&c, &d);
-                        self.judge(&["C09"], "stale.reads", json!(r2 == base_reads), json!(true), m.as_ref().and_then(|x| mv(x, 0)), h, pend_now, json!({"other": name}));
+                        self.judge(&p_reads, "stale.reads", json!(r2 == base_reads), json!(true), m.as_ref().and_then(|x| mv(x, 0)), h, pend_now, json!({"other": name}));
                         let p2 = E::proj(&c, &d);
-                        self.judge(&["C09", "C20"], "stale.state", json!(p2 == base_proj), json!(true), m.as_ref().and_then(|x| mv(x, 1)), h, pend_now, json!({"other": name}));
+                        self.judge(&p_state, "stale.state", json!(p2 == base_proj), json!(true), m.as_ref().and_then(|x| mv(x, 1)), h, pend_now, json!({"other": name}));
                     }
                     Err(e) => self.judge(&["C09"], "stale.panic", json!(e), json!(true), None, h, pend_now, json!({"other": name})),
                 }
